@@ -180,7 +180,7 @@ func (e *Env) trIdent(name string) (Term, Ty) {
 	if b, ok := e.vars[name]; ok {
 		return b.T, b.Ty
 	}
-	if (name == "$i" || name == "$io" || name == "$k" || name == "$visited" || strings.HasPrefix(name, "$r") || strings.HasPrefix(name, "$y") || strings.HasPrefix(name, "$h_")) && e.resolve != nil {
+	if (name == "$i" || name == "$io" || name == "$k" || name == "$visited" || strings.HasPrefix(name, "$r") || (strings.HasPrefix(name, "$a") && len(name) <= 4 && name[2] >= '0' && name[2] <= '9') || strings.HasPrefix(name, "$y") || strings.HasPrefix(name, "$h_")) && e.resolve != nil {
 		if t, ty, ok := e.resolve(name, e.st); ok {
 			return t, ty
 		}
